@@ -31,6 +31,25 @@ FORMS = [
     "create table nosuch.x(a int)",
     "create table pg_catalog.x(a int)",
     "create table x(a int default 1)",
+    # types the engine does not have
+    "create table x(a real)",
+    "create table x(a tinyint)",
+    "create table x(a time)",
+    "create table x(a vector)",
+    "create table x(a json)",
+    "create table x(a int[])",
+    "create table x(a uuid, b int)",
+    "create table x(a text, b char(3), c float, d double precision, e bytea, f timestamp with time zone, g numeric(5))",
+    "select cast(a as real) from t1",
+    "select cast(a as time) from t1",
+    "select cast('1' as uuid)",
+    "select cast(a as text), cast(a as float), cast(a as numeric(5)) from t1",
+    "create function g(real) returns int language sql as 'select 1'",
+    "create function g(int) returns real language sql as 'select 1'",
+    "select extract(hour from date '2020-01-01')",
+    "select extract(day from interval '1' day)",
+    "select extract(year from c) from t2",
+    "select extract(year from a) from t1",
     "create table x as select a from t1",
     # CREATE VIEW
     "create view v(_rowid_) as select a from t1",
